@@ -252,7 +252,7 @@ _add(
          "STDP, MSTDP and MSTDPET. One evaluation = one layer step + trainer call + update judged (parts, net change, "
          "applied change) against sums over recorded spike times; non-trivial when at least one spike pair contributes; "
          "distinct = (trainer, cell type, delay mode, sign mode, trace mode, reduction, batch, reward kind, pairs/no pairs).",
-    required=["trainer_steps_checked", "steps_with_pairs", "exhaustive_histories"],
+    required=["trainer_steps_checked", "steps_with_pairs", "exhaustive_histories", "per_cell_override_cases"],
     floor={"quick": 60, "thorough": 150},
     exhaustive={"quick": ["all 4^4 joint pre/post histories of one synapse x 4 sign modes x 2 trace modes"],
                 "thorough": ["all 4^5 joint pre/post histories of one synapse x 4 sign modes x 2 trace modes"]},
@@ -275,7 +275,7 @@ _add(
          "rule; (d) exactly constructed t_delta == 0 ties. One evaluation = one step judged; distinct = (part, trainer, "
          "cell type, delay values, sign mode, reduction, batch, reward kind, active/silent).",
     required=["formula_steps_checked", "steps_with_change", "steps_before_both_sides_spiked", "cross_steps_checked",
-              "zero_delay_steps_checked", "ties_checked"],
+              "zero_delay_steps_checked", "ties_checked", "tensor_valued_kernel_kwargs_cases"],
     floor={"quick": 60, "thorough": 150},
     text="Held on every history explored: the change applied by each real delay-adjusted / kernel trainer after every "
          "step equals the documented function of t_delta built from the true most-recent spike times and the delay read "
